@@ -202,14 +202,22 @@ def r17_1_iso_shape(ctx: Ctx) -> RuleResult:
         else:
             rr.fail("_PatternResources", f"{key} = {res.get(key)!r} is not sign + HH[:mm[:ss]]", "pyoda_time/globalization/_pattern_resources.py")
     # the 'g' expansion uses long / medium / short in that order with predicates zero-seconds / zero-seconds-and-minutes
-    op = M.func("_OffsetPatternParser.__parse_partial_pattern")
-    rr.inst()
-    src = unparse(op.node)
-    order = [src.find("offset_pattern_long,"), src.find("offset_pattern_medium,"), src.find("offset_pattern_short,")]
-    if all(o >= 0 for o in order) and order == sorted(order) and "__has_zero_seconds, self.__has_zero_seconds_and_minutes" in src:
-        rr.ok({"g": "long, medium (zero seconds), short (zero seconds and minutes)"})
-    else:
-        rr.fail(op.qual, "'g' does not combine long / medium / short offset patterns with the zero-seconds / zero-seconds-and-minutes predicates in that order", op.loc)
+    from .c07 import offset_composites
+
+    comps = offset_composites(ctx)
+    if not comps:
+        raise AnalysisError("no CompositePatternBuilder call in the Offset parser")
+    for f, c, rows in comps:
+        rr.inst()
+        prec = []
+        for texts, qe, pe in rows or []:
+            ms = {1 if "s" in t else 60 if "m" in t else 3600 for t in texts if t}
+            prec.append(ms.pop() if len(ms) == 1 else None)
+        # most precise first when parsing; the predicates (decided by R07.9) pick the least precise lossless one when formatting
+        if rows and prec == [1, 60, 3600]:
+            rr.ok({"general offset pattern": f.qual, "precisions (seconds)": prec})
+        else:
+            rr.fail(f.qual, f"the general offset pattern does not combine the long / medium / short patterns in that order (precisions found: {prec})", ctx.loc(f, c))
     # letters of the ISO shapes have fixed-width numeric handlers for the right field in every table that defines them
     want_rows = {"u": (4, "YEAR"), "H": (2, "HOURS_24"), "m": (2, "MINUTES"), "s": (2, "SECONDS")}
     for pt in parser_tables(ctx):
@@ -293,4 +301,125 @@ def r17_4_instant_is_utc(ctx: Ctx) -> RuleResult:
         rr.ok({"adapter": "parse", "builds": "Instant(days since epoch, nanosecond of day) of the parsed local value"})
     else:
         rr.fail(p.qual, "the parsed local date/time is not read as UTC (days since epoch + nanosecond of day)", p.loc)
+    return rr
+
+
+@rule("C17")
+def r17_5_patterns_are_stateless(ctx: Ctx) -> RuleResult:
+    """A built pattern object is shared (the standard ISO patterns are process-wide singletons): parsing and formatting must not
+    leave anything behind in it.  No method of a pattern class other than its constructors assigns to an attribute of `self`
+    (lazily filled slots that are tested for None and filled with a value independent of the call's arguments are the only
+    exception, and are checked by the lazy-slot rule R13.5)."""
+    from ..memo import lazy_slots
+
+    rr = RuleResult("R17.5", "pattern objects keep no state between calls: outside constructors no method of a pattern class writes to self", min_instances=15)
+    M = ctx.M
+    lazy = {(ls.fn.qual, ls.slot) for ls in lazy_slots(M)}
+    for c in sorted(M.all_classes(), key=lambda x: x.qual):
+        if "/text/" not in c.mod.rel:
+            continue
+        n = c.name
+        if "Pattern" not in n or any(w in n for w in ("Builder", "Parser", "Cursor", "Bucket", "Meta", "Helper", "Fields")):
+            continue
+        rr.inst()
+        bad = None
+        for f in c.all_defs:
+            if isinstance(f.node, ast.Lambda) or f.name in ("__init__", "_ctor", "__new__") or f.name.endswith("__ctor") or f.self_name is None:
+                continue
+            for s in own_nodes(f.node):
+                tg = s.targets if isinstance(s, ast.Assign) else [s.target] if isinstance(s, (ast.AugAssign, ast.AnnAssign)) else []
+                for t in tg:
+                    if isinstance(t, ast.Attribute) and isinstance(t.value, ast.Name) and t.value.id == f.self_name and (f.qual, unparse(t)) not in lazy:
+                        bad = (f, s, unparse(t))
+        if bad:
+            f, s, t = bad
+            rr.fail(f.qual, f"writes `{t}` on the shared pattern object during {f.name}: a later call on the same pattern sees what an earlier one left behind", ctx.loc(f, s))
+        else:
+            rr.ok({"class": c.qual})
+    return rr
+
+
+@rule("C17")
+def r17_6_fraction_separator(ctx: Ctx) -> RuleResult:
+    """The decimal separator of an optional fraction (`.FFF` / `;FFF`) is written by its own format action, followed by the
+    truncating fraction formatter, which removes the separator again when no digit is written.  The separator action must
+    therefore write the separator whenever at least one digit will follow: either unconditionally, or under a test that is true
+    for every fraction >= 10**(max_count - count) (evaluated at the boundary values for every count)."""
+    from ..absint import Iv, State
+    from ..oblig import interp
+    import copy
+
+    rr = RuleResult("R17.6", "optional-fraction patterns write the decimal separator whenever a fraction digit follows", min_instances=3)
+    M = ctx.M
+    for g in sorted(set(M.func_of_node.values()), key=lambda x: x.qual):
+        if isinstance(g.node, ast.Lambda) or not g.mod.rel.endswith("_time_pattern_helper.py") or g.parent is None:
+            continue
+        apps = [n for n in own_nodes(g.node) if isinstance(n, ast.Call) and isinstance(n.func, ast.Attribute) and n.func.attr == "append" and n.args and isinstance(n.args[0], ast.Constant) and n.args[0].value in (".", ",")]
+        if not apps or len(g.params) != 2:
+            continue
+        a = apps[0]
+        rr.inst()
+        conds = []
+        p = getattr(a, "_parent", None)
+        ch: ast.AST = a
+        while p is not None and p is not g.node:
+            if isinstance(p, ast.If):
+                conds.append((p.test, ch in p.body or any(ch is x for x in p.body)))
+            ch, p = p, getattr(p, "_parent", None)
+        if not conds:
+            rr.ok({"action": g.qual, "separator": "unconditional"})
+            continue
+        # the fraction pattern's repeat count ranges over 1..max_count; max_count comes from the handler's caller (9 for nanoseconds)
+        bad = None
+        for max_count in (7, 9):
+            for count in range(1, max_count + 1):
+                T = 10 ** (max_count - count)
+                for v in sorted({0, 1, T - 1, T, T + 1, 10 ** max_count - 1}):
+                    if v < 0:
+                        continue
+                    env: dict[str, Any] = {"count": Iv(count, count), "max_count": Iv(max_count, max_count)}
+                    # locals of the enclosing handler that the test reads (single-assignment temporaries)
+                    outer = g.parent
+                    while outer is not None:
+                        for n in own_nodes(outer.node):
+                            if isinstance(n, (ast.Assign, ast.AnnAssign)) and getattr(n, "value", None) is not None:
+                                t = n.targets[0] if isinstance(n, ast.Assign) else n.target
+                                if isinstance(t, ast.Name) and t.id not in env:
+                                    I0 = interp(ctx)
+                                    val = I0.ev(n.value, State(dict(env)), outer, 0)
+                                    if isinstance(val, Iv) and val.const:
+                                        env[t.id] = val
+                        outer = outer.parent
+                    ok_all = True
+                    for test, positive in conds:
+                        t2 = copy.deepcopy(test)
+                        for x in ast.walk(t2):
+                            for fld, val in ast.iter_fields(x):
+                                if isinstance(val, ast.Call) and isinstance(val.func, ast.Name) and "getter" in val.func.id:
+                                    setattr(x, fld, ast.Constant(v))
+                                elif isinstance(val, list):
+                                    for i, e in enumerate(val):
+                                        if isinstance(e, ast.Call) and isinstance(e.func, ast.Name) and "getter" in e.func.id:
+                                            val[i] = ast.Constant(v)
+                        ast.fix_missing_locations(t2)
+                        I = interp(ctx)
+                        r = I.ev(t2, State(dict(env)), g, 0)
+                        rr.states += 1
+                        if not (isinstance(r, Iv) and r.const):
+                            bad = bad or (count, v, "test not decided: " + unparse(test)[:50])
+                            ok_all = False
+                            break
+                        if bool(r.lo) != positive:
+                            ok_all = False
+                    written = ok_all
+                    if bad is None and (v >= T) and not written:
+                        bad = (count, v, f"fraction {v} has a digit within the first {count} of {max_count} places but no separator is written")
+                if bad:
+                    break
+            if bad:
+                break
+        if bad:
+            rr.fail(g.qual, f"separator action is conditional (`{unparse(conds[0][0])[:60]}`): {bad[2]} (count={bad[0]})", ctx.loc(g, a))
+        else:
+            rr.ok({"action": g.qual, "separator": "conditional, true whenever a digit follows"})
     return rr
